@@ -23,6 +23,8 @@ def no_adjacent_pair(s):
 
 
 SPECIAL_STRINGS = [
+    # strings that spell JSON themselves (a payload that IS such a string must be signed as a string)
+    '{"a": 1}', "[1, 2]", "{}", "[]", ' {"signed": 1}', "null", "12", '"quoted"', '{"signatures": {}, "signed": {}}',
     "", " ", "\x00", "\x7f", "\x1f", "\u0080", "\u00e9", "e\u0301", "\u00a0", "\u2003",
     "\ud800", "\udfff", "\udc00\ud800", "\U0001f600", "\U0010ffff", "\uffff", "\ufeff",
     '"', "\\", "/", "\\u0041", "\n", "\r\n", "\t", "null", "true", "1", "1.0", "NaN",
@@ -84,8 +86,12 @@ def json_values(max_leaves=25):
 envelope_shaped = st.builds(lambda sigs, signed: {"signatures": sigs, "signed": signed},
                             st.sampled_from([{}, {"ab" * 32: {"signature": "cd" * 64}}]), st.one_of(package_record, json_values(5)))
 
+# top-level scalars that invite "helpful" reinterpretation: strings that spell JSON, numbers as strings, booleans, null
+top_level_oddities = st.sampled_from(['{"a": 1}', "[1, 2]", "{}", "[]", ' {"signed": 1}', "null", "12", '"quoted"',
+                                      '{"signatures": {}, "signed": {}}', "", "true", True, False, None, 0, -0.0, 1.0])
+
 payloads = st.one_of(json_values(), json_values(8), package_record, package_record,
-                     st.dictionaries(strings, json_values(6), max_size=5), envelope_shaped)
+                     st.dictionaries(strings, json_values(6), max_size=5), envelope_shaped, top_level_oddities)
 
 
 def deep_value(depth, leaf=1):
